@@ -430,7 +430,40 @@ class Ctx:
         return 0
 
 
+def run_simulation(ctx, module, cfg, seconds=1500, depth=400):
+    """a configuration too large to finish: random simulation (tlc -simulate) for a bounded time; every state of every
+    generated behaviour is checked against the invariants of the configuration"""
+    if os.environ.get('VERIF_SKIP_MC'):
+        return
+    meta = os.path.join(BUILD, 'tlc', 'sim_%s_%d' % (os.path.basename(cfg), os.getpid())); shutil.rmtree(meta, ignore_errors=True)
+    ctx.log('SIM %s %s (%d s)' % (module, cfg, seconds))
+    t0 = time.time()
+    rc, out = java_tlc(['-simulate', 'num=100000000', '-depth', str(depth), '-seed', str(ctx.seed), '-workers', str(NCPU), '-metadir', meta, '-config', os.path.join(SPEC, cfg), module + '.tla'],
+                       heap='8g', timeout=seconds)
+    shutil.rmtree(meta, ignore_errors=True)
+    for f in os.listdir(SPEC):
+        if '_TTrace_' in f:
+            try:
+                os.remove(os.path.join(SPEC, f))
+            except OSError:
+                pass
+    r = parse_tlc(out)
+    m = re.findall(r'(\d[\d,]*) states checked', out)
+    nst = int(m[-1].replace(',', '')) if m else 0
+    if r['violation']:
+        f = os.path.join(ctx.work, 'tlc_sim_%s.out' % cfg); open(f, 'w').write(out[-200000:])
+        ctx.violation('design model %s/%s (simulation): %s' % (module, cfg, r['violation']), [f])
+    elif rc not in (0, 124):
+        raise Infra('TLC simulation failed on %s/%s (rc %d):\n%s' % (module, cfg, rc, out[-2000:]))
+    ctx.cov['states'] += nst
+    ctx.cov['design_runs'].append({'module': module, 'cfg': cfg + ' (simulation, %d s)' % seconds, 'states_checked': nst,
+                                   'wall_s': round(time.time() - t0, 1), 'result': r['violation'] or 'ok'})
+    ctx.log('   %d states checked in %.0fs' % (nst, time.time() - t0))
+
+
 def run_design(ctx, module, cfg, expect_actions=(), heap='6g', timeout=3000, coverage=False):
+    if cfg.endswith('_big.cfg') and module == 'MC_Core':
+        return run_simulation(ctx, module, cfg)
     """TLC on a design configuration.  coverage=True (slow: use on a miniature configuration) additionally
     requires every action in expect_actions to have been taken at least once (vacuity guard)."""
     if os.environ.get('VERIF_SKIP_MC'):       # (used only when trying seeded changes of the implementation: the design runs do not depend on it)
